@@ -106,6 +106,24 @@ func genEBQuery(t *rapid.T, pool []map[string][]string) gquery {
 	return q
 }
 
+// genPredefinedKeyEvent: an application event whose composite key is one the event bus defines itself (tm.event
+// for every message, tx.hash and tx.height for tx messages). The values are names of other message kinds / other
+// heights, i.e. what would make the message look like something else if it were taken at face value. They are
+// never marked for indexing (what the kv indexers should do with reserved keys is a different question).
+func genPredefinedKeyEvent(t *rapid.T, tx bool) gevent {
+	kind := "tm.event"
+	if tx {
+		kind = rapid.SampledFrom([]string{"tm.event", "tm.event", "tx.height", "tx.hash"}).Draw(t, "predefkey")
+	}
+	switch kind {
+	case "tx.height":
+		return gevent{Type: "tx", Attrs: []gattr{{Key: "height", Val: rapid.SampledFrom([]string{"1", "2", "999"}).Draw(t, "pv")}}}
+	case "tx.hash":
+		return gevent{Type: "tx", Attrs: []gattr{{Key: "hash", Val: "ABCD"}}}
+	}
+	return gevent{Type: "tm", Attrs: []gattr{{Key: "event", Val: rapid.SampledFrom([]string{"Tx", "NewBlockHeader", "NewBlock", "Vote"}).Draw(t, "pv")}}}
+}
+
 // faultyBlockIndexer / faultyTxIndexer stand for storage that fails to write at some heights.
 type faultyBlockIndexer struct {
 	indexer.BlockIndexer
@@ -166,6 +184,7 @@ func TestEventBusIndexer(t *testing.T) {
 		}
 		blocks := make([]blk, H+1)
 		var pool []map[string][]string
+		predef := 0 // application events under a key the event bus defines itself
 		for h := int64(1); h <= H; h++ {
 			b := blk{begin: genSEvents(t, false), end: genSEvents(t, false)}
 			switch rapid.SampledFrom([]string{"", "", "", "", "", "reserved-key", "block-write-error", "tx-write-error"}).Draw(t, "trouble") {
@@ -184,9 +203,22 @@ func TestEventBusIndexer(t *testing.T) {
 			case "tx-write-error":
 				txFail[h] = true
 			}
+			if rapid.IntRange(0, 7).Draw(t, "blockpredef") == 0 {
+				ev := genPredefinedKeyEvent(t, false)
+				if rapid.Bool().Draw(t, "inbegin") {
+					b.begin = append(b.begin, ev)
+				} else {
+					b.end = append(b.end, ev)
+				}
+				predef++
+			}
 			n := rapid.SampledFrom([]int{0, 1, 2, 3}).Draw(t, "ntx")
 			for i := 0; i < n; i++ {
 				it := txItem{Height: h, Index: uint32(i), Tx: []byte(fmt.Sprintf("tx-%d-%d-%d", h, i, rapid.IntRange(0, 99).Draw(t, "salt"))), Events: genSEvents(t, false)}
+				if rapid.IntRange(0, 9).Draw(t, "txpredef") == 0 {
+					it.Events = append(it.Events, genPredefinedKeyEvent(t, true))
+					predef++
+				}
 				if rapid.IntRange(0, 5).Draw(t, "failed") == 0 {
 					it.Code = 1
 				}
@@ -225,7 +257,7 @@ func TestEventBusIndexer(t *testing.T) {
 			data := types.EventDataNewBlockHeader{Header: types.Header{Height: h, ChainID: "c19"}, NumTxs: int64(numTxs),
 				ResultBeginBlock: abci.ResponseBeginBlock{Events: toABCI(begin)}, ResultEndBlock: abci.ResponseEndBlock{Events: toABCI(end)}}
 			ev := eventMap(begin, end)
-			ev["tm.event"] = append(ev["tm.event"], "NewBlockHeader")
+			ev["tm.event"] = []string{"NewBlockHeader"} // predefined key: whatever the application put under it is overwritten
 			e.publish(ev, func(d interface{}) error {
 				got, ok := d.(types.EventDataNewBlockHeader)
 				if !ok || got.Header.Height != h || got.NumTxs != int64(numTxs) {
@@ -244,9 +276,10 @@ func TestEventBusIndexer(t *testing.T) {
 					Result: abci.ResponseDeliverTx{Code: it.Code, Events: toABCI(it.Events)}}
 				results[it.hashHex()] = &res
 				ev := eventMap(it.Events)
-				ev["tm.event"] = append(ev["tm.event"], "Tx")
-				ev["tx.hash"] = append(ev["tx.hash"], it.hashHex())
-				ev["tx.height"] = append(ev["tx.height"], fmt.Sprint(it.Height))
+				// predefined keys ("Existing events with the same keys will be overwritten")
+				ev["tm.event"] = []string{"Tx"}
+				ev["tx.hash"] = []string{it.hashHex()}
+				ev["tx.height"] = []string{fmt.Sprint(it.Height)}
 				e.publish(ev, func(d interface{}) error {
 					got, ok := d.(types.EventDataTx)
 					if !ok || got.Height != it.Height || got.Index != it.Index || string(got.Tx) != string(it.Tx) {
@@ -356,6 +389,9 @@ func TestEventBusIndexer(t *testing.T) {
 		}
 		if troubled == 0 {
 			cls = append(cls, "no-indexing-trouble")
+		}
+		if predef > 0 {
+			cls = append(cls, "app-event-under-predefined-key")
 		}
 		nontrivial := e.mixed > 0 && nTx > 0
 		lib.Case("TestEventBusIndexer", lib.FP(strings.Join(e.hist, "\n")), nontrivial, cls...)
